@@ -12,6 +12,9 @@ import ast
 import sys
 from pathlib import Path
 
+sys.path.insert(0, str(Path(__file__).resolve().parent))
+from normalize import NotReducible, reduce_function  # noqa: E402
+
 
 class Unsupported(Exception):
     pass
@@ -50,12 +53,14 @@ def find_method(cls, name, required=True):
     return None
 
 
-def only_return(fn):
-    body = [s for s in fn.body if not (isinstance(s, ast.Expr) and isinstance(s.value, ast.Constant))]
-    body = [s for s in body if not isinstance(s, ast.Pass)]
-    if len(body) != 1 or not isinstance(body[0], ast.Return) or body[0].value is None:
-        bail(fn, "method body is not a single return")
-    return body[0].value
+def only_return(fn, module=None, cls=None):
+    """The expression the function returns.  Straight-line temporaries, `if ...: return` chains and one-line
+    helper functions are normalised away first (translate/normalize.py), so that naming a sub-expression or
+    extracting a helper does not change the translation."""
+    try:
+        return reduce_function(fn, module, cls)
+    except NotReducible as ex:
+        bail(fn, f"method body does not reduce to a single returned expression ({ex})")
 
 
 def attr_of(n, owner=None):
@@ -124,8 +129,8 @@ def gen_meta_key(tup, params, name):
             f"         (sort_items ({a6} {coq_side(s6, params)})) (sort_items ({a7} {coq_side(s7, params)})).\n")
 
 
-def lt_operands(fn):
-    e = only_return(fn)
+def lt_operands(fn, module=None, cls=None):
+    e = only_return(fn, module, cls)
     if not (isinstance(e, ast.Compare) and len(e.ops) == 1 and isinstance(e.ops[0], ast.Lt)):
         bail(e, "__lt__ does not return `a < b`")
     params = [a.arg for a in fn.args.args]
@@ -217,6 +222,22 @@ def gen_values_eq(fn):
         and src(body[2]) == "return True"
     )
     if not ok:
+        # the same function written without the explicit loop:
+        #   <key lists differ> -> False, otherwise all(np.array_equal(v1[k], v2[k]) for k in v1.keys())
+        try:
+            e = reduce_function(fn)
+            t = src(e).replace(" ", "").replace("\n", "")
+            k = "k"
+            if isinstance(e, ast.IfExp) and isinstance(e.orelse, ast.Call) and e.orelse.args \
+                    and isinstance(e.orelse.args[0], ast.GeneratorExp) and isinstance(e.orelse.args[0].generators[0].target, ast.Name):
+                k = e.orelse.args[0].generators[0].target.id
+            want = (f"Falseifnotsorted({v1}.keys())==sorted({v2}.keys())else"
+                    f"all((np.array_equal({v1}[{k}],{v2}[{k}])for{k}in{v1}.keys()))")
+            want2 = want.replace(f"ifnotsorted({v1}.keys())==sorted({v2}.keys())", f"ifsorted({v1}.keys())!=sorted({v2}.keys())")
+            ok = t in (want, want2, want.replace("all((", "all([").replace(")))", ")])"))
+        except NotReducible:
+            ok = False
+    if not ok:
         bail(fn, "values_eq has an unrecognised shape")
     return "Definition gen_values_eq (val1 val2 : list (str * value)) : bool := values_pyeq val1 val2.\n"
 
@@ -297,6 +318,25 @@ def gen_triangle(cls):
         "rejects_mixed_classes": txt.count("__class__.__name__==") >= 3 and "Trianglecellsmusthaveconsistenttype" in txt,
         "rejects_non_cells": f"notisinstance(cell,Cell)forcellin{arg}" in txt,
     }
+    if not feats["sorts_with_lt"]:
+        # the same thing spelled  v = list(arg); v.sort(); self._cells = v   (v a local used for nothing else)
+        loc = [n for n in ast.walk(init) if isinstance(n, ast.Assign) and len(n.targets) == 1 and isinstance(n.targets[0], ast.Name)
+               and src(n.value).replace(" ", "") in (f"list({arg})", f"sorted({arg})", f"sorted(list({arg}))")]
+        for a in loc:
+            v = a.targets[0].id
+            if v == arg:
+                continue
+            uses = [n for n in ast.walk(init) if isinstance(n, ast.Name) and n.id == v]
+            sorts = [n for n in ast.walk(init) if isinstance(n, ast.Call) and isinstance(n.func, ast.Attribute)
+                     and isinstance(n.func.value, ast.Name) and n.func.value.id == v and n.func.attr == "sort"
+                     and not n.args and not n.keywords]
+            stores = [n for n in ast.walk(init) if isinstance(n, ast.Assign) and any(src(t) == "self._cells" for t in n.targets)
+                      and isinstance(n.value, ast.Name) and n.value.id == v]
+            pre_sorted = src(a.value).replace(" ", "").startswith("sorted(")
+            # v occurs exactly: once as the assignment target, once per .sort(), once in the store
+            if len(stores) == 1 and len(uses) == 1 + len(sorts) + 1 and (pre_sorted or len(sorts) >= 1) \
+                    and (not sorts or all(s_.lineno > a.lineno and s_.lineno < stores[0].lineno for s_ in sorts)):
+                feats["sorts_with_lt"] = True
     # no key= / reverse= argument to sorted, no later assignment to self._cells
     n_assign = sum(1 for n in ast.walk(init) if isinstance(n, ast.Assign)
                    and any(src(t) == "self._cells" for t in n.targets))
@@ -344,8 +384,12 @@ def funnel(repo: Path):
                     "append", "extend", "sort", "insert", "pop", "remove", "reverse", "clear") \
                     and isinstance(n.func.value, ast.Attribute) and n.func.value.attr in ("_cells", "cells"):
                 bad.append((str(p.relative_to(repo)), n.lineno, src(n)[:80]))
-    # the single legitimate site
-    bad = [b for b in bad if not (b[0] == "bermuda/triangle.py" and b[2].startswith("self._cells = sorted("))]
+    # the single legitimate site: the assignment inside Triangle.__init__ (its shape is checked by gen_triangle:
+    # exactly one assignment, of the sorted materialised argument)
+    tri = ast.parse((repo / "bermuda" / "triangle.py").read_text())
+    init = find_method(find_class(tri, "Triangle"), "__init__")
+    init_lines = {n.lineno for n in ast.walk(init) if isinstance(n, ast.Assign) and any(src(t) == "self._cells" for t in n.targets)}
+    bad = [b for b in bad if not (b[0] == "bermuda/triangle.py" and b[1] in init_lines)]
     return bad
 
 
@@ -373,16 +417,16 @@ def translate(repo: Path):
     fields = [n.target.id for n in M.body if isinstance(n, ast.AnnAssign) and isinstance(n.target, ast.Name)]
     if fields != META_FIELDS:
         raise Unsupported(f"Metadata dataclass fields {fields} differ from {META_FIELDS}")
-    l, r, params = lt_operands(find_method(M, "__lt__"))
+    l, r, params = lt_operands(find_method(M, "__lt__"), meta_t, M)
     out.append(gen_meta_key(l, params, "gen_meta_left"))
     out.append(gen_meta_key(r, params, "gen_meta_right"))
     out.append(gen_meta_hash(find_method(M, "__hash__")))
     C = find_class(cell_t, "Cell")
-    l, r, params = lt_operands(find_method(C, "__lt__"))
+    l, r, params = lt_operands(find_method(C, "__lt__"), cell_t, C)
     out.append(gen_cell_key(l, params, "gen_cell_left", False))
     out.append(gen_cell_key(r, params, "gen_cell_right", False))
     I = find_class(inc_t, "IncrementalCell")
-    l, r, params = lt_operands(find_method(I, "__lt__"))
+    l, r, params = lt_operands(find_method(I, "__lt__"), inc_t, I)
     out.append(gen_cell_key(l, params, "gen_inc_left", True))
     out.append(gen_cell_key(r, params, "gen_inc_right", True))
     CU = find_class(inc_t, "CumulativeCell")
@@ -397,11 +441,11 @@ def translate(repo: Path):
     out.append(gen_values_eq(veq[0]))
     eqf = find_method(C, "__eq__")
     params = [a.arg for a in eqf.args.args]
-    conj = [cell_eq_conjunct(e, params) for e in conj_list(only_return(eqf))]
+    conj = [cell_eq_conjunct(e, params) for e in conj_list(only_return(eqf, cell_t, C))]
     out.append("Definition gen_cell_eq (self other : cell) : bool :=\n  " + "\n  && ".join(conj) + ".\n")
     eqi = find_method(I, "__eq__")
     params = [a.arg for a in eqi.args.args]
-    conj = [cell_eq_conjunct(e, params) for e in conj_list(only_return(eqi))]
+    conj = [cell_eq_conjunct(e, params) for e in conj_list(only_return(eqi, inc_t, I))]
     out.append("Definition gen_inc_eq (self other : cell) : bool :=\n  " + "\n  && ".join(conj) + ".\n")
     out.append(gen_cell_hash(find_method(C, "__hash__")))
     # NB: defining __eq__ without __hash__ in a subclass sets __hash__ to None in Python
@@ -409,7 +453,7 @@ def translate(repo: Path):
     if ih is None:
         out.append("Definition inc_hashable : bool := false.\n")
     else:
-        t = src(only_return(ih)).replace(" ", "")
+        t = src(only_return(ih, inc_t, I)).replace(" ", "")
         if t != "hash((super().__hash__(),self._prev_evaluation_date))":
             bail(ih, "IncrementalCell.__hash__ has an unrecognised shape")
         out.append("Definition inc_hashable : bool := true.\n")
